@@ -113,7 +113,8 @@ def _worker(task):
     prog, flavours, opts = task
     try:
         no_panic = opts.pop("_no_panic", False) if isinstance(opts, dict) else False
-        r = run_program(prog, flavours=flavours, model=_model, stop_on_first=True, **opts)
+        # C20 looks at every call of the program even after a model/implementation disagreement (a panic may come later)
+        r = run_program(prog, flavours=flavours, model=_model, stop_on_first=not no_panic, **opts)
         if no_panic:
             for i, st in enumerate(r["steps"]):
                 if st[2] is not None and st[2][0] in ("panic", "hang", "dead") and st[3] is None:
@@ -139,6 +140,8 @@ def _worker(task):
         out["prog"] = prog
         out["tree"] = r["tree"]
         bad = [(i, s) for i, s in enumerate(r["steps"]) if s[3] is not None]
+        worst = [(i, s) for i, s in bad if s[2] is not None and s[2][0] in ("panic", "hang", "dead")]
+        bad = worst or bad
         if bad:
             i, (op, cm, ci, reason, obs) = bad[0]
             out["fail"] = {"step": i, "op": op, "model": cm, "impl": ci, "reason": reason, "observed": obs}
@@ -295,6 +298,19 @@ def main():
             if not res["ok"]:
                 concrete, text = classify(pid, res)
                 failures.append((sname, res, concrete, text))
+    # ---- extraction cross-check: a sample of this run's programs re-evaluated inside Coq (Drive.v, vm_compute)
+    xc = {"checked": 0, "problems": []}
+    cand = [t[0] for _, t in tasks if 3 < len(t[0]) <= 40]
+    if cand and not a.seed_eval:
+        from cc import xcheck
+        k = 12 if tier == "quick" else 60
+        sample = random.Random(seed).sample(cand, min(len(cand), 4 * k))
+        try:
+            n, probs = xcheck.cross_check(sample[: 4 * k], max_chars=60000)
+        except Exception:
+            n, probs = 0, ["extraction cross-check crashed: " + traceback.format_exc()[-400:]]
+        xc = {"checked": n, "problems": probs}
+    stats["xcheck"] = xc
     # ---- step-level suites (strace: kill points, torn writes, injected errnos, path audit)
     step_stats, step_failures = {}, []
     for sname, sfun in spec.get("step_suites", []):
@@ -339,6 +355,11 @@ def main():
                    "broken_tie": None if f["concrete"] else f"step correspondence {sname} (model crash/fault states vs the traced implementation)"},
                   open(path, "w"), indent=1, default=str)
         violations.append((path, f["concrete"], f["text"]))
+    if stats["xcheck"]["problems"]:
+        path = f"{OUT}/replays/{pid}-extraction-crosscheck.json"
+        json.dump({"property": pid, "broken_tie": "extraction cross-check (extracted driver vs Drive.drive evaluated in coqc)", "problems": stats["xcheck"]["problems"],
+                   "concrete_failing_input": False}, open(path, "w"), indent=1)
+        violations.append((path, False, "; ".join(stats["xcheck"]["problems"])[:300]))
     if gate["problems"]:
         path = f"{OUT}/replays/{pid}-coq-gate.json"
         json.dump({"property": pid, "broken_tie": "Coq gate", "theorems": gate["theorems"], "problems": gate["problems"],
@@ -389,6 +410,7 @@ def write_evidence(pid, tier, seed, spec, gate, stats, seen, samples, violations
             "by_suite": stats["by_suite"], "by_flavour": stats["by_flavour"],
             "result_class_distribution": dict(sorted(stats["classes"].items(), key=lambda kv: -kv[1])[:60]),
             "step_level": stats.get("step", {}),
+            "extraction_crosscheck": stats.get("xcheck", {}),
             "exhaustive": False,
         },
         "assumptions": spec.get("assumptions", []) + S.COMMON_ASSUMPTIONS,
